@@ -798,6 +798,20 @@ func (w *run) api(st *rpcState, name string, f func() error) error {
 			if !ok && !w.faulty {
 				w.e.Violate("late_status_not_deadline_exceeded", "rpc %d: %s was blocked across the deadline and returned %v", st.r.ID, name, c)
 			}
+		} else if c == codes.Canceled && !st.cancelled && !w.faulty {
+			// the deadline passed and nobody cancelled: CANCELLED is only right
+			// if a handler returned it. (One clock: the server's deadline is
+			// never earlier than the client's, so its RST_STREAM(CANCEL) cannot
+			// arrive before the client's own deadline.)
+			ok := false
+			for _, s := range st.srvReturned {
+				if s != nil && s.Code() == codes.Canceled {
+					ok = true
+				}
+			}
+			if !ok {
+				w.e.Violate("deadline_reported_as_cancelled", "rpc %d: %s was blocked across the deadline and returned CANCELLED although the application did not cancel and no handler returned it: %v", st.r.ID, name, err)
+			}
 		}
 	}
 	return err
